@@ -35,6 +35,7 @@ import tempfile
 import time
 
 from collections import OrderedDict
+from copy import copy
 from functools import partial
 from pathlib import Path
 from types import TracebackType
@@ -6078,6 +6079,10 @@ class SSHServerConnection(SSHConnection):
             keypair = self._server_host_keys.get(alg)
             if keypair:
                 if alg != keypair.algorithm:
+                    # The key pair is shared with the other connections
+                    # using these options, so select the signature
+                    # algorithm on a copy private to this connection
+                    keypair = copy(keypair)
                     keypair.set_sig_algorithm(alg)
 
                 self._server_host_key = keypair
